@@ -16,12 +16,31 @@ class Unserialisable(object):
         return '<unserialisable>'
 
 
+KEY_INT = '__key_int__:'
+
+
+def py_key(k):
+    """case-JSON object key -> python dict key (a marker prefix stands for an int key, which JSON itself cannot carry)."""
+    if isinstance(k, str) and k.startswith(KEY_INT):
+        return int(k[len(KEY_INT):])
+    return k
+
+
+def case_key(k):
+    """python dict key -> case-JSON object key (inverse of py_key; keeps int and str keys apart in snapshots)."""
+    if isinstance(k, bool) or not isinstance(k, (int, str)):
+        return '__key_other__:%r' % (k,)
+    if isinstance(k, int):
+        return '%s%d' % (KEY_INT, k)
+    return k
+
+
 def py_json(j):
     """case-JSON -> python object for json.dumps (with BAD leaves turned into an unserialisable object)."""
     if isinstance(j, dict):
         if j == BAD:
             return Unserialisable()
-        return {k: py_json(v) for k, v in j.items()}
+        return {py_key(k): py_json(v) for k, v in j.items()}
     if isinstance(j, list):
         return [py_json(v) for v in j]
     return j
@@ -64,6 +83,13 @@ def json_sx(j):
     if isinstance(j, list):
         return '(l' + ''.join(' ' + json_sx(x) for x in j) + ')'
     if isinstance(j, dict):
+        if not all(isinstance(k, str) for k in j):
+            # json.dumps(sort_keys=True) sorts the ORIGINAL keys: an int next to a str cannot be ordered (TypeError), and
+            # several ints sort numerically, not as the strings they are written as; only a single int key is modelled
+            if len(j) == 1 and isinstance(next(iter(j)), int) and not isinstance(next(iter(j)), bool):
+                (k, v), = j.items()
+                return '(o (%s %s))' % (T(str(k)), json_sx(v))
+            return 'bad'
         items = sorted(j.items(), key=lambda kv: [ord(c) for c in kv[0]])
         return '(o' + ''.join(' (%s %s)' % (T(k), json_sx(v)) for k, v in items) + ')'
     raise ValueError('json_sx: %r' % (j,))
@@ -207,7 +233,22 @@ def record_sx(r):
                                       H(r['type'].encode('ascii')), ' '.join(o), p)
 
 
-def run_reader(data, chunk=None):
+def _open_stream(data, wrap):
+    """The byte stream handed to the reader: an in-memory stream, the same wrapped in a BufferedReader, or a real file."""
+    if wrap == 'buffered':
+        return io.BufferedReader(io.BytesIO(data)), None
+    if wrap == 'file':
+        import os
+        import tempfile
+        import lib
+        fd, path = tempfile.mkstemp(prefix='stream-', dir=lib.WORK)
+        with os.fdopen(fd, 'wb') as f:
+            f.write(data)
+        return open(path, 'rb'), path
+    return io.BytesIO(data), None
+
+
+def run_reader(data, chunk=None, wrap=None):
     """Iterates DiffXReader over data. Returns (observation, records, termination tuple, oracle sx)."""
     import pydiffx.reader as rmod
     from pydiffx.errors import DiffXParseError
@@ -224,14 +265,26 @@ def run_reader(data, chunk=None):
                 def _read_until(self, c, chunk_size=chunk):
                     return base._read_until(self, c, chunk_size=chunk)
             cls = Chunked
+        fp, path = _open_stream(data, wrap)
         try:
-            for r in cls(io.BytesIO(data)):
+            for r in cls(fp):
                 records.append(r)
             term = ('end',)
         except DiffXParseError as e:
             term = ('parse', e.linenum, e.column, str(e))
         except Exception as e:
             term = ('exc', type(e).__name__, str(e)[:200])
+        finally:
+            try:
+                fp.close()
+            except Exception:
+                pass
+            if path:
+                import os
+                try:
+                    os.remove(path)
+                except OSError:
+                    pass
     finally:
         rmod.json = saved
     if term[0] == 'end':
@@ -258,3 +311,28 @@ _EXC_RE = re.compile(r'\(exc \w[\w-]*\)')
 
 def collapse_exc(line):
     return _EXC_RE.sub('(exc)', line)
+
+
+def run_reader_twice(data):
+    """The SAME reader object iterated a second time after rewinding the stream: returns the second pass's (records, term).
+    Nothing of the first pass may survive in the reader except what __init__ set up (line numbers are not compared)."""
+    import pydiffx.reader as rmod
+    from pydiffx.errors import DiffXParseError
+    fp = io.BytesIO(data)
+    reader = rmod.DiffXReader(fp)
+    try:
+        for _ in reader:
+            pass
+    except Exception:
+        pass
+    fp.seek(0)
+    records = []
+    try:
+        for r in reader:
+            records.append(r)
+        term = ('end',)
+    except DiffXParseError as e:
+        term = ('parse', e.linenum, e.column, str(e))
+    except Exception as e:
+        term = ('exc', type(e).__name__, str(e)[:200])
+    return records, term
